@@ -1099,3 +1099,57 @@ def check_unless_sugar(ix, rep, rule='R-GRAM'):
         rep.ok(rule, f.module.rel, f.qual, 'unless-sugar', 'phi unless[a,b] psi = always[0,b] phi or phi until[a,b] psi, units carried', f.node.lineno)
     else:
         rep.fail(rule, f.module.rel, f.qual, 'unless-sugar', 'bounded unless builds `%s`; the documented sugar is always[0,b] phi or phi until[a,b] psi with both units carried' % full, f.node.lineno)
+
+
+# ------------------------------------------------------------------------------------------------- every alternative has its builder
+# label of an `expression` alternative -> node classes its builder constructs (LTL front end); transcribed from the grammar's
+# labels and README "Specification Language"; the STL front end adds the Timed variant where the alternative admits an interval
+LABEL_BUILDS = {
+    'ExprNegate': {'Negate'}, 'ExprAbs': {'Abs'}, 'ExprSqrt': {'Sqrt'}, 'ExprExp': {'Exp'}, 'ExprPow': {'Pow'}, 'ExprLog': {'Log'}, 'ExprLn': {'Ln'},
+    'ExprMultDiv': {'Multiplication', 'Division'}, 'ExprAddSub': {'Addition', 'Subtraction'}, 'ExprPredicate': {'Predicate'}, 'ExprNot': {'Neg'},
+    'ExprAlways': {'Always'}, 'ExprEv': {'Eventually'}, 'ExprHist': {'Historically'}, 'ExpreOnce': {'Once'}, 'ExprPrevious': {'Previous'},
+    'ExprNext': {'Next'}, 'ExprStrongPrevious': {'StrongPrevious'}, 'ExprStrongNext': {'StrongNext'}, 'ExprUntil': {'Until'},
+    'ExprUnless': {'Always', 'Until', 'Disjunction'}, 'ExprSince': {'Since'}, 'ExprAnd': {'Conjunction'}, 'ExprOr': {'Disjunction'},
+    'ExprImplies': {'Implies'}, 'ExprIff': {'Iff'}, 'ExprXor': {'Xor'}, 'ExprRise': {'Rise'}, 'ExprFall': {'Fall'},
+    'ExprId': {'Constant', 'Variable'}, 'ExprLiteral': {'Constant'}, 'ExprParen': set(),
+}
+MUST_HAVE_BUILDER = ('SpecificationId', 'modImport', 'rosTopic', 'intervalTimeLiteral', 'constantTimeLiteral')
+
+
+def check_builder_exhaustive(ix, rep, grammars, rule='R-GRAM'):
+    ltl, stl, absast = parser_classes(ix)
+    nodes = {c.name for c in D.node_classes(ix)}
+    n = 0
+    for tag, gname, cls in (('LTL', 'LtlParser', ltl), ('STL', 'StlParser', stl)):
+        rules = G.effective_rules(grammars, gname)
+        for rname, alts in sorted(rules.items()):
+            for a in alts:
+                if not a.label:
+                    continue
+                if rname != 'expression' and a.label not in MUST_HAVE_BUILDER:
+                    continue
+                n += 1
+                mname = label_method(a.label)
+                f = ix.resolve_method(cls, mname)
+                slot = 'builder:%s:%s' % (tag, a.label)
+                if f is None or f.module.name.startswith('rtamt.antlr'):
+                    rep.fail(rule, cls.module.rel, '%s.%s' % (cls.name, mname), slot, 'the %s front end has no builder for the grammar alternative #%s: the generated visitor\'s visitChildren '
+                             'returns the node of the last operand, so the operator silently disappears from the formula' % (tag, a.label), cls.node.lineno)
+                    continue
+                rep.analysed(f)
+                if rname != 'expression':
+                    rep.ok(rule, f.module.rel, f.qual, slot, 'builder defined', f.node.lineno)
+                    continue
+                if a.label not in LABEL_BUILDS:
+                    rep.error('%s: grammar alternative #%s is not in the label table of the checker' % (f.where, a.label))
+                    continue
+                want = set(LABEL_BUILDS[a.label])
+                has_interval = any(e.kind == 'rule' and e.value == 'interval' for e, _o in a.flat())
+                if has_interval:
+                    want |= {'Timed' + c for c in LABEL_BUILDS[a.label] if 'Timed' + c in nodes and c not in ('Disjunction',)}
+                built = {c.func.id for c in ast.walk(f.node) if isinstance(c, ast.Call) and isinstance(c.func, ast.Name) and c.func.id in nodes}
+                if built == want:
+                    rep.ok(rule, f.module.rel, f.qual, slot, 'builds %s' % sorted(built), f.node.lineno)
+                else:
+                    rep.fail(rule, f.module.rel, f.qual, slot, 'the builder of #%s constructs %s; the alternative denotes %s' % (a.label, sorted(built) or 'no node', sorted(want)), f.node.lineno)
+    return n
